@@ -333,14 +333,48 @@ def table_rules(repo, rep):
             rep.violated('R-DISPATCH', key, 'api/app.py:1', '%s is not registered at %s' % (hname, path))
 
 
+def hook_rules(repo, rep):
+    """an answer of the API is built by its handler from the library call.  A request hook (`@app.before_request`, `@app.after_request`,
+    `@app.url_value_preprocessor`, ...) that RETURNS a response answers in the handler's place (before_request) or replaces what it
+    built (after_request): a second place where valid requests can be refused or values altered, which the handler rules do not see."""
+    m = repo.module('api.app')
+    HOOKS = ('before_request', 'after_request', 'before_first_request', 'teardown_request', 'url_value_preprocessor', 'before_app_request', 'after_app_request')
+    n = 0
+    for f in m.all_functions():
+        decs = [stmt_text(d) for d in f.node.decorator_list]
+        hook = [d for d in decs if d.split('(')[0].split('.')[-1] in HOOKS]
+        if not hook:
+            continue
+        n += 1
+        key = 'R-WIRE::api/app.py::%s::request-hook' % f.qualname
+        rets = [r for r in ast.walk(f.node) if isinstance(r, ast.Return) and r.value is not None and not (isinstance(r.value, ast.Constant) and r.value.value is None)]
+        kind = hook[0].split('(')[0].split('.')[-1]
+        if kind.startswith('after'):
+            # must hand the response on unchanged: `return response` (its parameter)
+            prm = f.params[0].name if f.params else None
+            rets = [r for r in rets if not (isinstance(r.value, ast.Name) and r.value.id == prm)]
+        if rets:
+            rep.violated('R-WIRE', key, where(f, rets[0]), '%s is registered with @%s and returns `%s`: for the requests it picks, the answer is the hook\'s, not the handler\'s - a valid '
+                         'request (an exponent-form number such as -3.3333333333333335e-05 has 23 characters) gets this instead of status 200 with the library\'s values'
+                         % (f.qualname, hook[0], stmt_text(rets[0].value)[:60]), expected='no response from a request hook', actual=stmt_text(rets[0])[:100])
+        else:
+            rep.holds('R-WIRE', key, where(f, f.node), '%s (@%s) returns no response of its own' % (f.qualname, hook[0]))
+    if n == 0:
+        rep.holds('R-WIRE', 'R-WIRE::api/app.py::<module>::request-hook', 'api/app.py:1', 'no request hook is registered: every answer comes from a handler', work=False)
+
+
 def run(repo, rep):
     alg.reset()
     rep.trust('flask: request.args.get(key, default=..., type=float) returns the query value (or the default); jsonify serialises the dict it is given')
     rep.trust('opaque call atoms carry every formal parameter of the library function (defaults explicit)')
     handler_rules(repo, rep)
     table_rules(repo, rep)
+    hook_rules(repo, rep)
     from . import common
     common.identity_compare_rule(repo, rep, 'api.app')
+    # closures and lazy generators in the handlers (inputs converted when consumed, with whatever a re-used local holds by then)
+    common.late_binding_rule(repo, rep, ['api.app'])
+    common.iterator_reuse_rule(repo, rep, ['api.app'])
     # dms output is dec2hp of the library's decimal degrees, dms input hp2dec: the carry and digit rules of the two converters
     from . import c08 as _c08
     _c08.carry_rule(repo, rep)
